@@ -186,7 +186,7 @@ pub fn run(ctx: &mut Ctx) {
         }
     }
     let n = alpha.len() as u64;
-    let max_len: u32 = if ctx.quick() { 3 } else { 5 };
+    let max_len: u32 = if ctx.quick() { 4 } else { 5 };
     let mut complete = true;
     let mut idx = 0u64;
     let mut h: Vec<Op> = Vec::new();
